@@ -114,6 +114,8 @@ type OSMGenConfig struct {
 	MissingNodes  bool
 	Multipolygons bool
 	Network       bool // highway tags on most ways, oneway, weights
+	GeometryKeys  bool // some nodes carry an OSM tag keyed "point" and some ways one keyed "path" (they collide with the geometry tags)
+	MixedMembers  bool // multipolygons also list nodes and relations (labels, admin centres, members with empty or outer roles)
 }
 
 var osmKeys = []string{"name", "ref", "amenity", "highway", "building", "wikidata", "landuse", "note"}
@@ -157,6 +159,9 @@ func GenOSM(t *rapid.T, cfg OSMGenConfig) OSMData {
 		if rapid.IntRange(0, 2).Draw(t, "nodetagged") == 0 {
 			tags = genOSMTags(t, "nodetags", 2)
 		}
+		if cfg.GeometryKeys && rapid.IntRange(0, 5).Draw(t, "pointkey") == 0 {
+			tags = append(dropKey(tags, "point"), TagS{"point", "yes"})
+		}
 		d.Nodes = append(d.Nodes, OSMNode{ID: nextNode, LL: ll, Tags: tags})
 		free = append(free, nextNode)
 	}
@@ -186,6 +191,9 @@ func GenOSM(t *rapid.T, cfg OSMGenConfig) OSMData {
 			if rapid.IntRange(0, 4).Draw(t, "oneway") == 0 {
 				tags = append(tags, TagS{"oneway", "yes"})
 			}
+		}
+		if cfg.GeometryKeys && rapid.IntRange(0, 5).Draw(t, "pathkey") == 0 {
+			tags = append(dropKey(tags, "path"), TagS{"path", "yes"})
 		}
 		d.Ways = append(d.Ways, OSMWay{ID: nextWay, Nodes: nodes, Tags: tags})
 		openWays = append(openWays, nextWay)
@@ -234,6 +242,10 @@ func GenOSM(t *rapid.T, cfg OSMGenConfig) OSMData {
 				w := rapid.SampledFrom(closedWays).Draw(t, "mpway")
 				if rapid.IntRange(0, 9).Draw(t, "mpopen") == 0 && len(openWays) > 0 {
 					w = rapid.SampledFrom(openWays).Draw(t, "mpopenway")
+				}
+				if cfg.MixedMembers && rapid.IntRange(0, 2).Draw(t, "mpother") == 0 {
+					ms = append(ms, OSMMember{Type: rapid.SampledFrom([]int{0, 0, 2}).Draw(t, "mpothertype"), ID: rapid.SampledFrom(free).Draw(t, "mpotherid"),
+						Role: rapid.SampledFrom([]string{"", "outer", "label", "admin_centre"}).Draw(t, "mpotherrole")})
 				}
 				ms = append(ms, OSMMember{Type: 1, ID: w, Role: role})
 			}
